@@ -7,7 +7,10 @@ import (
 	"reflect"
 
 	"github.com/cockroachdb/apd/v2"
+	compact_float "github.com/kstenerud/go-compact-float"
 	"github.com/kstenerud/go-concise-encoding/builder"
+	"github.com/kstenerud/go-concise-encoding/ce"
+	"github.com/kstenerud/go-concise-encoding/ce/events"
 	"pgregory.net/rapid"
 
 	"verif/internal/canon"
@@ -23,6 +26,189 @@ type C19Case struct {
 	Event ev.Event `json:"event"`
 	Dest  string   `json:"dest"`
 	Via   string   `json:"via"` // builder | cbe | cte
+	// Mode "" = one value into one destination (above). "list" = Events into a slice of Dest
+	// (state shared between consecutive conversions). "ref" = {"a" = &x:Event "b" = $x} (or the reference
+	// first) into struct{A Dest; B Dest2}: the conversion applied when a reference is resolved.
+	Mode    string     `json:"mode,omitempty"`
+	Events  []ev.Event `json:"events,omitempty"`
+	Dest2   string     `json:"dest2,omitempty"`
+	Forward bool       `json:"forward,omitempty"`
+}
+
+func isFloatDest(d string) bool { return d == "float32" || d == "float64" }
+
+// c19Judge compares one stored element with the exact value of the event it came from.
+func c19Judge(e *ev.Event, dest string, stored interface{}, desc string) error {
+	want, wkind, isInt := exactValue(e)
+	floatDest := dest == "float32" || dest == "float64"
+	bigFloatDest := dest == "bigfloat" || dest == "pbigfloat"
+	isDecimal := e.K == ev.DFloat || e.K == ev.BigDFloat
+	if floatDest && !isInt {
+		return nil // only integer values into float destinations are in the statement
+	}
+	if bigFloatDest && isDecimal {
+		return nil // decimal -> binary big float: not judged (S54 / cannot be exact by nature)
+	}
+	got, gkind, ok := storedValue(stored)
+	if !ok {
+		return fmt.Errorf("harness: cannot read back a %T", stored)
+	}
+	switch wkind {
+	case "nan":
+		if gkind != "nan" {
+			return fmt.Errorf("%s: NaN has no exact value in this destination, yet no error was returned (stored %s)", desc, describe(stored))
+		}
+	case "inf":
+		if gkind != "inf" {
+			return fmt.Errorf("%s: infinity has no exact value in this destination, yet no error was returned (stored %s)", desc, describe(stored))
+		}
+	default:
+		if gkind != "rat" || got.Cmp(want) != 0 {
+			return fmt.Errorf("%s: stored %s, exact value is %s; no error was returned", desc, describe(stored), want.RatString())
+		}
+	}
+	return nil
+}
+
+func c19CheckMulti(c *C19Case, ctx *Ctx) error {
+	cfg := newCfg()
+	ctx.Label("mode:" + c.Mode)
+	ctx.Label("dest:" + c.Dest)
+	ctx.Label("via:" + c.Via)
+	ctx.NonTrivial(true)
+	var evs []ev.Event
+	var template interface{}
+	elemType := func(d string) reflect.Type {
+		if d == "iface" {
+			return reflect.TypeOf((*interface{})(nil)).Elem()
+		}
+		if d == "pbigint" {
+			return reflect.TypeOf((*big.Int)(nil))
+		}
+		if d == "pbigfloat" {
+			return reflect.TypeOf((*big.Float)(nil))
+		}
+		return reflect.TypeOf(c19Template(d))
+	}
+	if c.Mode == "list" {
+		evs = append([]ev.Event{{K: ev.BD}, {K: ev.Version}, {K: ev.List}}, c.Events...)
+		evs = append(evs, ev.Event{K: ev.End}, ev.Event{K: ev.ED})
+		template = reflect.MakeSlice(reflect.SliceOf(elemType(c.Dest)), 0, 0).Interface()
+	} else {
+		key := func(s string) ev.Event { return ev.Event{K: ev.StringArray, AT: events.ArrayTypeString, S: s} }
+		evs = []ev.Event{{K: ev.BD}, {K: ev.Version}, {K: ev.Map}}
+		marked := []ev.Event{key("A"), {K: ev.Marker, Bs: []byte("x")}, c.Event}
+		ref := []ev.Event{key("B"), {K: ev.RefLocal, Bs: []byte("x")}}
+		if c.Forward {
+			evs = append(append(evs, ref...), marked...)
+		} else {
+			evs = append(append(evs, marked...), ref...)
+		}
+		evs = append(evs, ev.Event{K: ev.End}, ev.Event{K: ev.ED})
+		st := reflect.StructOf([]reflect.StructField{{Name: "A", Type: elemType(c.Dest)}, {Name: "B", Type: elemType(c.Dest2)}})
+		template = reflect.Zero(st).Interface()
+		ctx.Label("dest2:" + c.Dest2)
+	}
+	used := evs // the events the destination actually sees
+	var res interface{}
+	var err error
+	if c.Via == "builder" {
+		b := builder.NewSession(nil, cfg).NewBuilderFor(template)
+		o := harness.Guard(harness.DefaultDeadline, func() {
+			if idx, perr := ev.Play(evs, ce.NewRules(b, cfg)); idx >= 0 {
+				err = perr
+			}
+		})
+		if o.TimedOut {
+			ctx.Hung = true
+			return fmt.Errorf("builder: %v", o)
+		}
+		if o.Panic != nil {
+			err = fmt.Errorf("%v", o.Panic)
+		}
+		if err == nil {
+			res = b.GetBuiltObject()
+		}
+	} else {
+		var doc []byte
+		var idx int
+		var eerr error
+		if c.Via == "cbe" {
+			doc, idx, eerr = encodeCBE(evs, cfg)
+		} else {
+			doc, idx, eerr = encodeCTE(evs, cfg)
+		}
+		if idx >= 0 {
+			return fmt.Errorf("harness: encoder failed: %v", eerr)
+		}
+		var derr error
+		if c.Via == "cbe" {
+			used, derr = decodeCBE(doc, cfg)
+		} else {
+			o := ctx.Guard(func() { used, derr = decodeCTE(doc, cfg) })
+			if o.TimedOut || o.Panic != nil {
+				return fmt.Errorf("CTE decoder: %v", o)
+			}
+		}
+		if derr != nil {
+			return fmt.Errorf("harness: encoder output does not decode: %v", derr)
+		}
+		var bad error
+		res, err, bad = unmarshalDoc(ctx, c.Via, doc, template, cfg)
+		if bad != nil {
+			return bad
+		}
+	}
+	if err != nil {
+		ctx.Label("result:error")
+		return nil // an error is always acceptable
+	}
+	ctx.Label("result:stored")
+	// the numeric events of the decoded document, in order
+	var nums []ev.Event
+	for i := range used {
+		if _, _, ok := func() (r *big.Rat, k string, ok bool) {
+			defer func() { recover() }()
+			switch used[i].K {
+			case ev.Int, ev.PInt, ev.NInt, ev.BigInt, ev.Float, ev.BigFloat, ev.DFloat, ev.BigDFloat, ev.Nan:
+				return nil, "", true
+			}
+			return nil, "", false
+		}(); ok {
+			nums = append(nums, used[i])
+		}
+	}
+	rv := reflect.ValueOf(res)
+	for rv.IsValid() && rv.Kind() == reflect.Ptr && !rv.IsNil() {
+		rv = rv.Elem()
+	}
+	if c.Mode == "list" {
+		if !rv.IsValid() || rv.Kind() != reflect.Slice || rv.Len() != len(nums) {
+			return fmt.Errorf("list of %d numbers into []%s via %s: result %s has a different length; no error was returned", len(nums), c.Dest, c.Via, describe(res))
+		}
+		for i := range nums {
+			if e := c19Judge(&nums[i], c.Dest, rv.Index(i).Interface(), fmt.Sprintf("element %d (%v) of %d into []%s via %s", i, nums[i], len(nums), c.Dest, c.Via)); e != nil {
+				return e
+			}
+		}
+		return nil
+	}
+	if len(nums) != 1 || !rv.IsValid() || rv.Kind() != reflect.Struct {
+		return fmt.Errorf("harness: unexpected shape (%d numbers, result %T)", len(nums), res)
+	}
+	if e := c19Judge(&nums[0], c.Dest, rv.Field(0).Interface(), fmt.Sprintf("marked value %v into field A %s via %s", nums[0], c.Dest, c.Via)); e != nil {
+		return e
+	}
+	// the reference is filled in from the object built for the marker: field B is only judged when
+	// field A holds the exact value (a conversion of A that the statement does not cover - a decimal
+	// into a binary float, a float narrowed to float32 - legitimately propagates to B)
+	wantA, kindA, _ := exactValue(&nums[0])
+	gotA, gkindA, okA := storedValue(rv.Field(0).Interface())
+	if !okA || kindA != gkindA || (kindA == "rat" && gotA.Cmp(wantA) != 0) {
+		ctx.Label("ref: marked field not exact, reference not judged")
+		return nil
+	}
+	return c19Judge(&nums[0], c.Dest2, rv.Field(1).Interface(), fmt.Sprintf("reference to the marked value %v (field A is %s) resolved into field B %s via %s (forward=%v)", nums[0], c.Dest, c.Dest2, c.Via, c.Forward))
 }
 
 var c19Dests = []string{"int8", "int16", "int32", "int64", "int", "uint8", "uint16", "uint32", "uint64", "uint", "float32", "float64",
@@ -128,6 +314,9 @@ func storedValue(res interface{}) (r *big.Rat, kind string, ok bool) {
 			return nil, "nil", true
 		}
 		switch p := rv.Interface().(type) {
+		case *apd.Decimal:
+			r, k, _ := exactValue(&ev.Event{K: ev.BigDFloat, BDF: p})
+			return r, k, true
 		case *big.Int:
 			return new(big.Rat).SetInt(p), "rat", true
 		case *big.Float:
@@ -158,6 +347,12 @@ func storedValue(res interface{}) (r *big.Rat, kind string, ok bool) {
 		return new(big.Rat).SetFloat64(f), "rat", true
 	}
 	switch v := rv.Interface().(type) {
+	case compact_float.DFloat:
+		r, k, _ := exactValue(&ev.Event{K: ev.DFloat, DF: v})
+		return r, k, true
+	case apd.Decimal:
+		r, k, _ := exactValue(&ev.Event{K: ev.BigDFloat, BDF: &v})
+		return r, k, true
 	case big.Int:
 		return new(big.Rat).SetInt(&v), "rat", true
 	case big.Float:
@@ -229,6 +424,36 @@ func init() {
 			c := &C19Case{Event: genNumericEvent(t)}
 			c.Dest = c19Dests[rapid.IntRange(0, len(c19Dests)-1).Draw(t, "dest")]
 			c.Via = rapid.SampledFrom([]string{"builder", "builder", "cbe", "cte"}).Draw(t, "via")
+			switch rapid.IntRange(0, 5).Draw(t, "mode") {
+			case 0: // several values into one slice
+				c.Mode = "list"
+				dests := append(append([]string{}, c19Dests...), "iface", "iface", "pbigint", "bigint")
+				c.Dest = dests[rapid.IntRange(0, len(dests)-1).Draw(t, "ldest")]
+				first := genNumericEvent(t)
+				c.Events = []ev.Event{first}
+				for i, n := 0, rapid.IntRange(1, 3).Draw(t, "nmore"); i < n; i++ {
+					if rapid.Bool().Draw(t, "samekind") {
+						// another value of the same event kind and magnitude class (neighbouring values)
+						e2 := genNumericEvent(t)
+						for tries := 0; e2.K != first.K && tries < 8; tries++ {
+							e2 = genNumericEvent(t)
+						}
+						c.Events = append(c.Events, e2)
+					} else {
+						c.Events = append(c.Events, genNumericEvent(t))
+					}
+				}
+				return c
+			case 1: // a marked value and a reference to it, into two differently typed fields
+				c.Mode = "ref"
+				c.Dest2 = c19Dests[rapid.IntRange(0, len(c19Dests)-1).Draw(t, "dest2")]
+				c.Forward = rapid.Bool().Draw(t, "forward")
+				if (isFloatDest(c.Dest) || c.Dest == "bigfloat" || c.Dest == "pbigfloat") && isFloatDest(c.Dest2) && findingOpen("S76-reference-float-to-float32-rounds") {
+					ctx.Stats.Exclude("S76-reference-float-to-float32-rounds")
+					c.Dest2 = "int64"
+				}
+				return c
+			}
 			if (c.Dest == "bigfloat" || c.Dest == "pbigfloat") && (c.Event.K == ev.DFloat || c.Event.K == ev.BigDFloat) && findingOpen("S54-decimal-to-bigfloat-precision") {
 				ctx.Stats.Exclude("S54-decimal-to-bigfloat-precision")
 				c.Dest = "bigint"
@@ -237,6 +462,9 @@ func init() {
 		},
 		Check: func(ci interface{}, ctx *Ctx) error {
 			c := ci.(*C19Case)
+			if c.Mode != "" {
+				return c19CheckMulti(c, ctx)
+			}
 			cfg := newCfg()
 			want, wkind, isInt := exactValue(&c.Event)
 			floatDest := c.Dest == "float32" || c.Dest == "float64"
